@@ -329,6 +329,39 @@ impl ConversionQ {
     fn is_empty(&self) -> bool { self.page_nodes.is_empty() }
 }
 
+// Follows a chain of indirect references starting at `o` until it
+// reaches an object that is not a reference.  Returns None if the
+// chain runs into an undefined object or loops back on itself.  This
+// is iterative and remembers the identifiers it has followed, so that
+// long or cyclic chains (e.g. `5 0 obj 5 0 R endobj`) can neither
+// exhaust the stack nor loop forever.
+fn resolve_chain<'a>(
+    ctxt: &'a PDFObjContext, o: &'a Rc<LocatedVal<PDFObjT>>,
+) -> Option<&'a Rc<LocatedVal<PDFObjT>>> {
+    let mut followed = BTreeSet::new();
+    let mut cur = o;
+    while let PDFObjT::Reference(r) = cur.val() {
+        if !followed.insert(r.id()) {
+            return None
+        }
+        cur = ctxt.lookup_obj(r.id())?;
+    }
+    Some(cur)
+}
+
+// Gets the dictionary value of a key, resolving a reference (or a
+// chain of references) into the dictionary it denotes.
+fn get_chain_resolved_dict<'a>(
+    ctxt: &'a PDFObjContext, d: &'a DictT, k: &[u8],
+) -> Option<&'a DictT> {
+    d.get(k)
+        .and_then(|o| resolve_chain(ctxt, o))
+        .and_then(|o| match o.val() {
+            PDFObjT::Dict(d) => Some(d),
+            _ => None,
+        })
+}
+
 // Table 29, page 98 (2020 edn)
 pub fn to_catalog(
     ctxt: &PDFObjContext, q: &mut ConversionQ, dom: &mut DOMContext, o: &LocatedVal<PDFObjT>,
@@ -350,14 +383,12 @@ pub fn to_catalog(
 
 // Table 30, page 103 (2020 edn)
 fn to_page_kids(
-    ctxt: &PDFObjContext, q: &mut ConversionQ, r: &Option<Rc<Resources>>, o: &LocatedVal<PDFObjT>,
+    ctxt: &PDFObjContext, q: &mut ConversionQ, r: &Option<Rc<Resources>>,
+    o: &Rc<LocatedVal<PDFObjT>>,
 ) -> Option<Vec<ObjectId>> {
+    // handle reference (chains) to an array
+    let o = resolve_chain(ctxt, o)?;
     match o.val() {
-        PDFObjT::Reference(rf) => {
-            // handle reference to an array
-            ctxt.lookup_obj(rf.id())
-                .and_then(|o| to_page_kids(ctxt, q, r, o))
-        },
         PDFObjT::Array(a) => {
             let mut kids = Vec::new();
             for o in a.objs() {
@@ -401,7 +432,7 @@ fn to_root_page_tree_node(
 ) -> Result<RootPageTreeNode, LocatedVal<PageDOMError>> {
     match o.val() {
         PDFObjT::Dict(d) => {
-            let res = match d.get_resolved_dict(ctxt, b"Resources") {
+            let res = match get_chain_resolved_dict(ctxt, d, b"Resources") {
                 None => None,
                 Some(d) => match to_resources(ctxt, dom, d, o) {
                     Ok(res) => Some(Rc::new(res)),
@@ -436,7 +467,7 @@ fn to_page_tree_node(
                 None => return Err(o.place(PageDOMError::PageTreeNodeConversionNoParent)),
                 Some(p) => p.id(),
             };
-            let res = match (d.get_resolved_dict(ctxt, b"Resources"), r) {
+            let res = match (get_chain_resolved_dict(ctxt, d, b"Resources"), r) {
                 (Some(d), _) => match to_resources(ctxt, dom, d, o) {
                     Ok(res) => Some(Rc::new(res)),
                     Err(e) => return Err(e),
@@ -464,10 +495,8 @@ fn to_page_tree_node(
 fn to_page_content(
     ctxt: &PDFObjContext, o: &Rc<LocatedVal<PDFObjT>>,
 ) -> Option<Rc<LocatedVal<PDFObjT>>> {
+    let o = resolve_chain(ctxt, o)?;
     match o.val() {
-        PDFObjT::Reference(r) => ctxt
-            .lookup_obj(r.id())
-            .and_then(|o| to_page_content(ctxt, o)),
         PDFObjT::Stream(_) => Some(Rc::clone(o)),
         _ => None,
     }
@@ -476,10 +505,8 @@ fn to_page_content(
 fn to_page_contents(
     ctxt: &PDFObjContext, o: &Rc<LocatedVal<PDFObjT>>,
 ) -> Option<Vec<Rc<LocatedVal<PDFObjT>>>> {
+    let o = resolve_chain(ctxt, o)?;
     match o.val() {
-        PDFObjT::Reference(r) => ctxt
-            .lookup_obj(r.id())
-            .and_then(|o| to_page_contents(ctxt, o)),
         PDFObjT::Stream(_) => Some(vec![Rc::clone(o)]),
         PDFObjT::Array(a) => {
             let mut v = Vec::new();
@@ -496,9 +523,17 @@ fn to_page_contents(
 }
 
 fn to_resource_font_value(
-    ctxt: &PDFObjContext, dom: &mut DOMContext, o: &LocatedVal<PDFObjT>,
+    ctxt: &PDFObjContext, dom: &mut DOMContext, o: &Rc<LocatedVal<PDFObjT>>,
 ) -> Result<BTreeMap<DictKey, Rc<FontDictionary>>, LocatedVal<PageDOMError>> {
     let mut fonts = BTreeMap::new();
+    // The value can be given through a reference (chain).
+    let o = match (o.val(), resolve_chain(ctxt, o)) {
+        (_, Some(o)) => o,
+        (PDFObjT::Reference(r), None) => {
+            return Err(o.place(PageDOMError::ResourceFontValueUnknownObjectId(r.id())))
+        },
+        (_, None) => return Err(o.place(PageDOMError::ResourceFontValueNotDict)),
+    };
     match o.val() {
         // The value should be a dictionary mapping font resource
         // names to font dictionaries.
@@ -526,10 +561,6 @@ fn to_resource_font_value(
                     _ => return Err(o.place(PageDOMError::FontResourceNotDict)),
                 }
             }
-        },
-        PDFObjT::Reference(r) => match ctxt.lookup_obj(r.id()) {
-            Some(o) => return to_resource_font_value(ctxt, dom, o),
-            None => return Err(o.place(PageDOMError::ResourceFontValueUnknownObjectId(r.id()))),
         },
         _ => return Err(o.place(PageDOMError::ResourceFontValueNotDict)),
     }
@@ -565,7 +596,7 @@ fn to_page(
                 None => return Err(o.place(PageDOMError::PageNodeConversionNoParent)),
                 Some(p) => p.id(),
             };
-            let res = match (d.get_resolved_dict(ctxt, b"Resources"), r) {
+            let res = match (get_chain_resolved_dict(ctxt, d, b"Resources"), r) {
                 (Some(d), _) => match to_resources(ctxt, dom, d, o) {
                     Ok(r) => Rc::new(r),
                     Err(e) => return Err(e),
@@ -642,6 +673,11 @@ fn to_font_descriptor(d: &DictT) -> Result<FontDescriptor, PageDOMError> {
 fn to_encoding(
     ctxt: &PDFObjContext, o: &Rc<LocatedVal<PDFObjT>>,
 ) -> Result<FontEncoding, LocatedVal<PageDOMError>> {
+    // The encoding can be given through a reference (chain).
+    let o = match resolve_chain(ctxt, o) {
+        Some(o) => o,
+        None => return Err(o.place(PageDOMError::FontDictConversionBadEncoding)),
+    };
     match o.val() {
         PDFObjT::Name(n) => match std::str::from_utf8(n.val()) {
             Ok("MacRomanEncoding") => Ok(FontEncoding::MacRoman),
@@ -651,10 +687,6 @@ fn to_encoding(
             Err(_) => Err(o.place(PageDOMError::FontDictConversionUnknownEncoding)),
         },
         PDFObjT::Dict(_) => Ok(FontEncoding::Dict(Rc::clone(o))),
-        PDFObjT::Reference(r) => match ctxt.lookup_obj(r.id()) {
-            Some(o) => to_encoding(ctxt, o),
-            None => Err(o.place(PageDOMError::FontDictConversionBadEncoding)),
-        },
         _ => Err(o.place(PageDOMError::FontDictConversionBadEncoding)),
     }
 }
